@@ -28,6 +28,7 @@ import (
 	"strings"
 	"sync"
 	"sync/atomic"
+	"syscall"
 	"time"
 
 	"github.com/cosmos/cosmos-sdk/client"
@@ -542,6 +543,10 @@ func runLoopChild(specPath string) {
 	var wg sync.WaitGroup
 	wg.Add(1)
 	go sub.Start(txf, &wg, st2)
+	go func() {
+		wg.Wait()
+		c.events <- "stopped" // Start returned: the loop shut itself down (graceful stop)
+	}()
 
 	select {
 	case <-c.subReady:
@@ -568,10 +573,32 @@ func runLoopChild(specPath string) {
 		c.expect("log receive new ethereum header.", 45*time.Second)
 		c.record(fmt.Sprintf("H %d", in.N))
 		c.putsIter = 0
+		// graceful stop "g<phase><t|i>": SIGTERM / SIGINT to this very process at a phase of the iteration — 0 while the
+		// log query is being served, 1 between query and broadcast, 2 while the broadcast is being served, 3 during the
+		// loop's sleep.  The loop decides what it still does; when Start has returned the process exits and is restarted
+		// on the same LevelDB.  No sentinel for such an iteration: Start returning is the end marker.
+		graceful := len(in.Out) == 3 && in.Out[0] == 'g'
+		signalled := false
+		stop := func() {
+			if signalled {
+				return
+			}
+			signalled = true
+			sig := syscall.SIGTERM
+			if in.Out[2] == 'i' {
+				sig = syscall.SIGINT
+			}
+			if err := syscall.Kill(os.Getpid(), sig); err != nil {
+				panic(err)
+			}
+			time.Sleep(150 * time.Millisecond) // let the runtime deliver it before the loop is unblocked
+		}
+		if !graceful {
+			c.notify(fakeHeader(0))
+		}
 		// the sentinel header is queued right behind: its log line proves that the iteration for header n is
 		// over — whatever path it took (skipped, query failed / retried / unanswered, any number of broadcasts
 		// and cursor writes).  No assumption about the confirmation depth or the shape of an iteration.
-		c.notify(fakeHeader(0))
 		// how the successive log queries for this header are answered
 		plan := []string{"ok"}
 		switch in.Out {
@@ -587,7 +614,14 @@ func runLoopChild(specPath string) {
 		ck, kk := crashK(in.Out)
 		broadcasts, queries := 0, 0
 		for over := false; !over; {
-			ev := c.expectAny(245*time.Second, "getlogs ", "account", "broadcast ", "log ")
+			ev := c.expectAny(245*time.Second, "getlogs ", "account", "broadcast ", "log ", "stopped")
+			if ev == "stopped" {
+				if !graceful || !signalled {
+					c.record("BAD the loop returned without being asked to")
+					os.Exit(4)
+				}
+				c.die(idx) // Start has returned after the signal: the process ends, the parent restarts it
+			}
 			if ck == 'w' && c.putsIter >= kk && !strings.HasPrefix(ev, "log ") {
 				c.die(idx) // right after the k-th cursor write of this iteration, before anything else happens
 			}
@@ -619,8 +653,22 @@ func runLoopChild(specPath string) {
 					continue
 				}
 				c.record(fmt.Sprintf("Q %d %d 1", lo, hi))
+				if graceful {
+					rangeHasEvents := false
+					for _, p := range spec.Place {
+						if p[1] >= lo && p[1] <= hi {
+							rangeHasEvents = true
+						}
+					}
+					if in.Out[1] == '0' || !rangeHasEvents {
+						stop() // while the log query is being served (or: nothing will follow in this iteration)
+					}
+				}
 				c.reply <- "ok"
 			case ev == "account":
+				if graceful && in.Out[1] == '1' {
+					stop()
+				}
 				if in.Out == "c1" && broadcasts == 0 {
 					c.die(idx)
 				}
@@ -630,10 +678,17 @@ func runLoopChild(specPath string) {
 				if ck == 'b' && broadcasts == kk {
 					c.die(idx) // on the k-th broadcast, before it is received
 				}
+				if graceful && in.Out[1] == '2' {
+					stop()
+				}
 				if ns := strings.TrimPrefix(ev, "broadcast "); ns != "-" {
 					c.record("C " + ns) // (a transaction without claims — every event of the range refused — carries nothing)
 				}
 				c.reply <- "ok"
+				if graceful && in.Out[1] == '3' {
+					time.Sleep(time.Second)
+					stop()
+				}
 				if ck == 'a' && broadcasts == kk {
 					if in.Out == "c4" {
 						time.Sleep(6 * time.Second)
@@ -651,6 +706,9 @@ func runLoopChild(specPath string) {
 				// header n itself was below the depth and skipped
 				if strings.HasPrefix(in.Out, "c") {
 					c.die(idx)
+				}
+				if graceful {
+					stop()
 				}
 			default:
 				// other forwarded log lines (a failed query) carry no information the trace needs
@@ -714,6 +772,9 @@ func (lc loopCase) modelInputs() []loopInput {
 		case in.Kind == "h" && mo == "c5":
 			// the sentinel is observed before the crash-after-write is executed: h n done, h0, then idle crash
 			res = append(res, loopInput{Kind: "h", N: in.N, Out: "d"}, loopInput{Kind: "h", N: 0, Out: "d"}, loopInput{Kind: "x"})
+		case in.Kind == "h" && mo == "g":
+			// no sentinel for a gracefully stopped iteration: it runs to its end, Start returns, the process is restarted
+			res = append(res, loopInput{Kind: "h", N: in.N, Out: "d"}, loopInput{Kind: "x"})
 		case in.Kind == "h" && (mo == "d" || mo == "f"):
 			res = append(res, loopInput{Kind: "h", N: in.N, Out: mo}, loopInput{Kind: "h", N: 0, Out: "d"})
 		default:
@@ -1056,6 +1117,12 @@ func genLoopCase(r *Rng) loopCase {
 			if withEv {
 				out = []string{"c1", "c2", "c3", "c4"}[r.Intn(4)]
 			}
+		case 5:
+			// graceful stop (SIGTERM / SIGINT) at a phase of the iteration
+			out = "g0" + []string{"t", "i"}[r.Intn(2)]
+			if withEv {
+				out = "g" + []string{"0", "0", "1", "2", "3"}[r.Intn(5)] + []string{"t", "i"}[r.Intn(2)]
+			}
 		}
 		lc.inputs = append(lc.inputs, loopInput{Kind: "h", N: head, Out: out})
 		switch r.Intn(8) {
@@ -1085,7 +1152,10 @@ func fixCrashPoints(lc *loopCase) {
 			continue
 		}
 		if in.N < 50 {
-			if in.Out != "d" && in.Out != "f" {
+			if len(in.Out) == 3 && in.Out[0] == 'g' {
+				in.M = "g"
+				mem = persisted
+			} else if in.Out != "d" && in.Out != "f" {
 				in.Out = "c0"
 				mem = persisted
 			}
@@ -1107,6 +1177,8 @@ func fixCrashPoints(lc *loopCase) {
 		mo := in.Out
 		ck, kk := crashK(in.Out)
 		switch {
+		case len(in.Out) == 3 && in.Out[0] == 'g':
+			mo = "g" // graceful stop: the unchanged loop finishes the iteration, then returns; restart
 		case in.Out == "s":
 			mo = "d" // a late answer is an answer
 		case in.Out == "sf" || in.Out == "fs":
@@ -1131,7 +1203,7 @@ func fixCrashPoints(lc *loopCase) {
 		}
 		in.M = mo
 		switch mo {
-		case "d":
+		case "d", "g":
 			persisted, mem = e+1, e+1
 		case "f":
 			mem = m
@@ -1158,6 +1230,18 @@ func init() {
 				addBadEvents(rng, &cases[i])
 			}
 			fixCrashPoints(&cases[i])
+		}
+		if n > 6 {
+			// directed: graceful stops between query and broadcast, while the broadcast is served, during the sleep
+			cases[6] = loopCase{p0: 300, place: [][2]int64{{1, 305}, {2, 310}, {3, 315}},
+				inputs: []loopInput{{Kind: "h", N: 355, Out: "g1t"}, {Kind: "h", N: 360, Out: "g2i"}, {Kind: "h", N: 365, Out: "g3t"}, {Kind: "h", N: 366, Out: "d"}}}
+			fixCrashPoints(&cases[6])
+		}
+		if n > 5 {
+			// directed: SIGTERM while the log query for a range with one lock (block 120) is being served; restart; go on
+			cases[5] = loopCase{p0: 100, place: [][2]int64{{1, 120}},
+				inputs: []loopInput{{Kind: "h", N: 200, Out: "g0t"}, {Kind: "h", N: 260, Out: "d"}, {Kind: "h", N: 262, Out: "g0i"}}}
+			fixCrashPoints(&cases[5])
 		}
 		if n > 4 {
 			// directed: block 1000 holds a good lock (1) and a lock whose recipient has a typo (2), block 1001 a good lock (3)
